@@ -242,3 +242,17 @@ Definition sniff_case (c : list N * list N * option (list N * list N) * bool * l
   str_eqb (strip (firstn WINDOW content)) head &&
   opt_pair_eqb (search2 head) groups &&
   str_eqb (fst (choose (fun _ _ => compat_v) content)) enc.
+
+(* no end tag of n begins inside the body (the byte after the body is the opening angle bracket of the real end tag) *)
+Fixpoint no_end (n b : list N) : bool :=
+  match b with
+  | [] => true
+  | _ :: r => is_none (end_tag n (b ++ [60])) && no_end n r
+  end.
+
+(* no end tag of n at all (the element runs to the end of the window) *)
+Fixpoint never_ended (n b : list N) : bool :=
+  match b with
+  | [] => true
+  | _ :: r => is_none (end_tag n b) && never_ended n r
+  end.
